@@ -282,6 +282,9 @@ fn replay(prog_path: &str, cases_path: &str, out_path: &str) {
         prepared.insert(pi, (enc::text(&t["name"]).to_string(), r));
     }
     let mut out = NdWriter::create(out_path);
+    // termination is part of the lookup semantics (Gsub.tla: decreasing measure): a case allsorts does not return
+    // from within two minutes is written to <out>.hang and the process exits 3
+    let wd = vh::sup::Watchdog::start(&format!("{}.hang", out_path), 120);
     let mut tags: BTreeMap<String, u64> = BTreeMap::new();
     let mut stats: BTreeMap<&'static str, u64> = BTreeMap::new();
     let mut bump = |k: &'static str| *stats.entry(k).or_insert(0) += 1;
@@ -290,6 +293,7 @@ fn replay(prog_path: &str, cases_path: &str, out_path: &str) {
         n_cases += 1;
         let pi = enc::int(&case["p"]);
         let input = enc::ints(&case["in"]);
+        wd.enter(json!({"p": pi, "in": case["in"], "order": case["order"], "selftest": case["selftest"]}).to_string());
         let (name, prep) = prepared.get_mut(&pi).unwrap_or_else(|| panic!("case refers to unknown program {}", pi));
         let name = name.clone();
         let mut ok = true;
@@ -363,6 +367,7 @@ fn replay(prog_path: &str, cases_path: &str, out_path: &str) {
             n_mism += 1;
         }
     }
+    wd.done();
     out.finish();
     println!(
         "{}",
